@@ -48,6 +48,11 @@ def family(name, inputs, outputs):
         core = {'AND': _and, 'NAND': _and, 'OR': _or, 'NOR': _or, 'XOR': _xor, 'XNOR': _xor}[f]
         neg = f in ('NAND', 'NOR', 'XNOR')
         return {outputs[0]: (lambda env, core=core, neg=neg: core([env[p] for p in inputs]) != neg)}
+    # tie cells: constant drivers without inputs
+    if re.fullmatch(r'LOGIC1|TIEH(I)?', base) and len(inputs) == 0 and len(outputs) == 1:
+        return {outputs[0]: lambda env: True}
+    if re.fullmatch(r'LOGIC0|TIEL(O)?', base) and len(inputs) == 0 and len(outputs) == 1:
+        return {outputs[0]: lambda env: False}
     if re.fullmatch(r'(CLK|N|AO)?BUF(F)?|DELLN\d', base) and len(inputs) == 1 and len(outputs) == 1:
         return {outputs[0]: lambda env: env[inputs[0]]}
     if re.fullmatch(r'(AO)?INV|IBUFF', base) and len(inputs) == 1 and len(outputs) == 1:
